@@ -87,10 +87,13 @@ impl<T: Sc> World<T> {
     pub fn from_scenario(sc: &Scenario) -> Self {
         let n = sc.x.len();
         let s = sc.y.len();
-        let mut y = DMatrix::from_element(n, s, T::of(0.0));
+        // one row per entry of the observation columns: this is n for every scenario except
+        // C08's deliberately mis-shaped ones (observations / weights that do not match x)
+        let rows = if sc.variant == "hostile" { sc.y.iter().map(|c| c.len()).max().unwrap_or(n) } else { n };
+        let mut y = DMatrix::from_element(rows, s, T::of(0.0));
         for (j, col) in sc.y.iter().enumerate() {
             for (i, v) in col.iter().enumerate() {
-                if i < n {
+                if i < rows {
                     y[(i, j)] = T::of(v.0);
                 }
             }
@@ -310,6 +313,8 @@ pub struct StepObs<T: Sc> {
     /// model-seam events produced by this op: log[ev_from..ev_to]
     pub ev_from: usize,
     pub ev_to: usize,
+    /// flavour of the problem after the op (conversions and fits change it)
+    pub par_after: bool,
 }
 
 pub struct Runner<T: Sc, F: Factory<T>> {
@@ -325,6 +330,9 @@ pub struct Runner<T: Sc, F: Factory<T>> {
     pub build_snap: Option<Snap>,
     /// run Fit ops as `minimize` on a tap instead of `LevMarSolver::fit`
     pub tap: bool,
+    /// treat conversion ops as no-ops (C11's sequential twin never converts, so that a
+    /// conversion that loses part of the problem shows up against it on later use)
+    pub skip_conversions: bool,
     pub steps: Vec<StepObs<T>>,
 }
 
@@ -360,6 +368,7 @@ impl<T: Sc, F: Factory<T>> Runner<T, F> {
         Runner {
             build_snap,
             tap: false,
+            skip_conversions: false,
             world,
             ctl,
             subject,
@@ -382,6 +391,7 @@ impl<T: Sc, F: Factory<T>> Runner<T, F> {
                     extra: Extra::Skipped,
                     ev_from: self.ctl.log_len(),
                     ev_to: self.ctl.log_len(),
+                    par_after: false,
                 });
                 continue;
             }
@@ -450,10 +460,24 @@ impl<T: Sc, F: Factory<T>> Runner<T, F> {
                     Err(e) => panic = Some(e),
                 }
             }
+            Op::IntoSequential | Op::IntoParallel if self.skip_conversions => {
+                extra = Extra::Skipped;
+            }
             Op::IntoSequential => {
                 let p = self.subject.take().unwrap();
                 let before = snap(&p);
                 match guarded(move || p.into_sequential()) {
+                    Ok(q) => {
+                        self.subject = Some(q);
+                        extra = Extra::Converted { before };
+                    }
+                    Err(e) => panic = Some(e),
+                }
+            }
+            Op::IntoParallel => {
+                let p = self.subject.take().unwrap();
+                let before = snap(&p);
+                match guarded(move || p.into_parallel()) {
                     Ok(q) => {
                         self.subject = Some(q);
                         extra = Extra::Converted { before };
@@ -570,6 +594,7 @@ impl<T: Sc, F: Factory<T>> Runner<T, F> {
             extra,
             ev_from,
             ev_to,
+            par_after: self.subject.as_ref().map(|p| p.is_parallel()).unwrap_or(false),
         });
     }
 
